@@ -495,6 +495,29 @@ func focused(per int) []scenario {
 	}
 }
 
+// every ordered pair of node kinds the pipeline grammar allows occurs as neighbours in some pipeline: all (filter, filter),
+// (filter, formatter) and (formatter, sink) pairs, three pipelines per scenario, instances shared across the pipelines
+func pairScenarios(per int) []scenario {
+	var pipes []pipeSpec
+	i := 0
+	for _, f1 := range filterKinds {
+		for _, f2 := range filterKinds {
+			for _, fm := range fmtKinds {
+				sk := sinkKinds[i%len(sinkKinds)]
+				pipes = append(pipes, pipeSpec{Type: fmt.Sprintf("t%d", 1+i%2), Kinds: []string{string(f1), string(f2), string(fm), string(sk)}, Insts: []int{0, 1, i % 2, i % 2}})
+				i++
+			}
+		}
+	}
+	// (formatter, sink): 36 pipelines with the sink cycling every step cover the 12 pairs; filters directly before a formatter likewise
+	var out []scenario
+	for j := 0; j < len(pipes); j += 3 {
+		out = append(out, scenario{Name: fmt.Sprintf("pairs-%d", j/3), Pipes: pipes[j : j+3], Senders: 3, PerSend: per / 2,
+			Controls: []string{"broker-reopen", "enc-rotate", "ce-rotate", "file-reopen"}})
+	}
+	return out
+}
+
 func randomScenario(r *hc.Rand, i, per int) scenario {
 	np := 1 + r.Intn(4)
 	sc := scenario{Name: fmt.Sprintf("random-%d", i), Senders: 2 + r.Intn(7), PerSend: per}
@@ -547,6 +570,7 @@ func main() {
 		scs = []scenario{rec.Case}
 	} else {
 		scs = focused(*per)
+		scs = append(scs, pairScenarios(*per)...)
 		for i := 0; i < *nrandom; i++ {
 			scs = append(scs, randomScenario(r.Fork(), i, *per))
 		}
